@@ -328,6 +328,15 @@ impl SemanticState {
     }
 
     pub fn build(mut self) -> anyhow::Result<ResolvedSemanticState> {
+        // A `use` of a path means the item of that path if there is one and the module
+        // otherwise, and the generated code cannot have a `mod` and a type of one name
+        // side by side either: a path is one or the other.
+        for module_path in self.modules.keys() {
+            if !module_path.is_empty() && self.type_registry.get(module_path).is_some() {
+                anyhow::bail!("`{module_path}` is both a module and an item");
+            }
+        }
+
         #[cfg(feature = "verif")]
         let mut verif_iteration = 0usize;
         loop {
